@@ -1,4 +1,5 @@
 import ZChain.Model.LFB
+import ZChain.Generated.C41
 /-!
 # C41 — LFB tickets are authentic and never move backwards
 
@@ -288,6 +289,31 @@ theorem forged_rejected (nodes : List Node) (t : Ticket)
       subst h2
       simp at h
       omega
+
+/-! ## the guards of the source are the guards of the model (translator obligation)
+
+`Generated/C41.lean` is rewritten from the current Go source on every run (harness/cmd/xc41). The model compares rounds
+with `>` / `≤` / `<` on integers exactly where the worker does and performs no arithmetic on rounds. If a guard of the
+worker is rewritten (say `ticket.Round <= latest.Round` into `ticket.Round - latest.Round <= 0`, which wraps on int64
+for rounds more than 2^63 apart — an input no honest sharder sends) these equalities stop holding and the property
+module no longer builds: the check fails closed even when no failing input is found. -/
+
+/-- drain loop `firstMaxT`: `ticket.Round > prev.Round`; adoption `adoptU`: `ticket.Round <= latest.Round` → skip;
+blank-signature kick; drain loop `firstMaxB`: `b.Round > prev.Round`; `adoptB`: `b.Round <= latest.Round` → skip, then
+`latest.Round < ticket.Round` → adopt. -/
+theorem worker_guards_as_modelled :
+    ZChain.Generated.C41.startLFBTicketWorkerGuards =
+      ["if !isSharder", "for", "if isSharder",
+       "for len(c.updateLFBTicket) > 0", "if ticket.Round > prev.Round", "if ticket.Round <= latest.Round",
+       "if ticket.Sign == \"\"",
+       "for len(c.broadcastLFBTicket) > 0", "if b.Round > prev.Round", "if b.Round <= latest.Round",
+       "if latest.Round < ticket.Round"] ∧
+    ZChain.Generated.C41.startLFBTicketWorkerArith = [] := by decide
+
+/-- `verifyLFBTicket`: the only guard is the registry lookup result -/
+theorem verify_guards_as_modelled :
+    ZChain.Generated.C41.verifyLFBTicketGuards = ["if sharder == nil"] ∧
+    ZChain.Generated.C41.verifyLFBTicketArith = [] := by decide
 
 /-! ## non-vacuity -/
 
